@@ -25,7 +25,9 @@ static RV num(long double v, int kind) {
         return r;
     }
     r.has  = true;
-    r.v    = (long double)(double)v; // the implementation computes in IEEE double: round after every operation
+    // reals are computed in IEEE double: round after every operation; whole numbers of the unsigned / signed kind are held
+    // exactly in 64 bits by the implementation (and exactly in a long double here)
+    r.v    = (kind == 2 || v != truncl(v)) ? (long double)(double)v : v;
     r.kind = kind;
     return r;
 }
